@@ -74,7 +74,12 @@ type BaseInSession struct {
 	videoSsrc nazaatomic.Uint32
 
 	disposeOnce sync.Once
-	waitChan    chan error
+
+	// connMu protects the four udp conns and connDisposed: SETUP may still be installing conns while another
+	// goroutine (kick, group dispose) disposes the session
+	connMu       sync.Mutex
+	connDisposed bool
+	waitChan     chan error
 
 	dumpReadAudioRtp base.LogDump
 	dumpReadVideoRtp base.LogDump
@@ -144,6 +149,14 @@ func (session *BaseInSession) SetObserver(observer IBaseInSessionObserver) {
 }
 
 func (session *BaseInSession) SetupWithConn(uri string, rtpConn, rtcpConn *nazanet.UdpConnection) error {
+	session.connMu.Lock()
+	if session.connDisposed {
+		// the session was disposed before this SETUP reached it, nobody would close these conns any more
+		session.connMu.Unlock()
+		_ = rtpConn.Dispose()
+		_ = rtcpConn.Dispose()
+		return nazaerrors.Wrap(base.ErrSessionNotStarted)
+	}
 	if session.sdpCtx.IsAudioUri(uri) {
 		session.audioRtpConn = rtpConn
 		session.audioRtcpConn = rtcpConn
@@ -151,8 +164,10 @@ func (session *BaseInSession) SetupWithConn(uri string, rtpConn, rtcpConn *nazan
 		session.videoRtpConn = rtpConn
 		session.videoRtcpConn = rtcpConn
 	} else {
+		session.connMu.Unlock()
 		return nazaerrors.Wrap(base.ErrRtsp)
 	}
+	session.connMu.Unlock()
 
 	go rtpConn.RunLoop(session.onReadRtpPacket)
 	go rtcpConn.RunLoop(session.onReadRtcpPacket)
@@ -420,17 +435,22 @@ func (session *BaseInSession) dispose(err error) error {
 	session.disposeOnce.Do(func() {
 		Log.Infof("[%s] lifecycle dispose rtsp BaseInSession. session=%p", session.UniqueKey(), session)
 		var e1, e2, e3, e4 error
-		if session.audioRtpConn != nil {
-			e1 = session.audioRtpConn.Dispose()
+		session.connMu.Lock()
+		session.connDisposed = true
+		audioRtpConn, audioRtcpConn := session.audioRtpConn, session.audioRtcpConn
+		videoRtpConn, videoRtcpConn := session.videoRtpConn, session.videoRtcpConn
+		session.connMu.Unlock()
+		if audioRtpConn != nil {
+			e1 = audioRtpConn.Dispose()
 		}
-		if session.audioRtcpConn != nil {
-			e2 = session.audioRtcpConn.Dispose()
+		if audioRtcpConn != nil {
+			e2 = audioRtcpConn.Dispose()
 		}
-		if session.videoRtpConn != nil {
-			e3 = session.videoRtpConn.Dispose()
+		if videoRtpConn != nil {
+			e3 = videoRtpConn.Dispose()
 		}
-		if session.videoRtcpConn != nil {
-			e4 = session.videoRtcpConn.Dispose()
+		if videoRtcpConn != nil {
+			e4 = videoRtcpConn.Dispose()
 		}
 
 		session.waitChan <- nil
